@@ -8,7 +8,7 @@
 (***************************************************************************)
 EXTENDS Integers, Sequences, TLC, Json, IOUtils
 
-Kinds == {"exec", "sequence", "background", "pipeline", "bigoutput", "orphaning"}
+Kinds == {"exec", "sequence", "background", "pipeline", "bigoutput", "orphaning", "termproof"}
 Hows  == {"exit0", "exit1", "cancel", "timeout"}
 Scns  == {[kind |-> k, how |-> h, cores |-> c] : k \in Kinds, h \in Hows, c \in {1, 2}}
 
